@@ -52,23 +52,23 @@ theorem Entry.oper {X : Setup} {a i : Nat} {T S : List Int} {C : List (Nat × Na
   exact (Except.ok.inj this).symm
 
 /-- a case that succeeds without touching the stacks or the captures: one success, no frames -/
-theorem deliver_one {X : Setup} {a i j k : Nat} {T S : List Int} {C : List (Nat × Nat × Nat)} {s s1 : VMState}
-    (he : Entry X a i T S C s) (hb : VM.body X.p X.env s = .ok (s1, .advance k))
+theorem deliver_one {X : Setup} {a i j k : Nat} {T S : List Int} {v : Int} {C : List (Nat × Nat × Nat)} {s s1 : VMState}
+    (he : Entry X a i (T ++ [v]) S C s) (hb : VM.body X.p X.env s = .ok (s1, .advance k))
     (h1 : s1.codepos = s.codepos) (htr : s1.track = s.track) (hst : s1.stack = s.stack) (hcap : s1.cap = s.cap)
     (htp : s1.textpos = (j : Int)) (hf : ∃ w, VM.fetch X.p (a + k + 1) = .ok w) :
     Delivers X (a + k + 1) T S S C [⟨j, C⟩] s := by
   obtain ⟨w, hw⟩ := hf
   have hpc : s1.codepos = a := by rw [h1, he.pc]
-  refine Delivers.single ?_ rfl
+  refine Delivers.single (v := v) ?_ rfl
   refine Leads.of_step (step_adv hb (by rw [hpc]; exact hw)) (Leads.here ?_)
   exact ⟨by simp [hpc], hw, htp, by simp [htr, he.tr], by simp [hst, he.st], by simp only [hcap]; exact he.cap⟩
 
 /-- a case that fails without touching the stacks or the captures -/
-theorem deliver_none {X : Setup} {a i b : Nat} {T S S' : List Int} {C : List (Nat × Nat × Nat)} {s s1 : VMState}
-    (he : Entry X a i T S C s) (hb : VM.body X.p X.env s = .ok (s1, .back))
+theorem deliver_none {X : Setup} {a i b : Nat} {T S S' : List Int} {v : Int} {C : List (Nat × Nat × Nat)} {s s1 : VMState}
+    (he : Entry X a i (T ++ [v]) S C s) (hb : VM.body X.p X.env s = .ok (s1, .back))
     (htr : s1.track = s.track) (hst : s1.stack = s.stack) (hcap : s1.cap = s.cap) :
     Delivers X b T S S' C [] s :=
-  Leads.here ⟨s1, hb, by rw [htr, he.tr], by rw [hst, he.st], by rw [hcap]; exact he.cap⟩
+  Delivers.fail (v := v) (Leads.here ⟨s1, hb, by rw [htr, he.tr], by rw [hst, he.st], by rw [hcap]; exact he.cap⟩)
 
 
 /-! ## the text -/
@@ -98,7 +98,7 @@ end text
 
 /-- a zero-width test -/
 theorem assert_delivers {X : Setup} {a i : Nat} {T S : List Int} {C : List (Nat × Nat × Nat)} {s : VMState} {ok : Bool}
-    (he : Entry X a i T S C s) (hb : VM.body X.p X.env s = .ok (VM.assertion s ok))
+    (he : Entry X a i (T ++ [v]) S C s) (hb : VM.body X.p X.env s = .ok (VM.assertion s ok))
     (hf : ∃ w, VM.fetch X.p (a + 1) = .ok w) :
     Delivers X (a + 1) T S S C (if ok then [⟨i, C⟩] else []) s := by
   cases ok with
@@ -110,13 +110,13 @@ theorem assert_delivers {X : Setup} {a i : Nat} {T S : List Int} {C : List (Nat 
 
 section anchors
 variable {X : Setup} {TPx : TP} {sets : List (List Nat)} {a i : Nat} {T S : List Int} {C : List (Nat × Nat × Nat)}
-  {s : VMState}
+  {s : VMState} {v : Int} {d : Bool}
 
 theorem bare_oper {t : Nat} (he : Entry X a i T S C s) (hia : InstrAt X.p a (i0 t)) (ht : t < 64) :
     s.oper = ⟨t, false, false, false, false⟩ := by
   rw [he.oper hia]; exact decode_plain t ht
 
-theorem nothing_delivers (he : Entry X a i T S C s) (hia : InstrAt X.p a (i0 opNothing)) :
+theorem nothing_delivers (he : Entry X a i (T ++ [v]) S C s) (hia : InstrAt X.p a (i0 opNothing)) :
     Delivers X (a + 1) T S S C [] s := by
   have hoper := bare_oper he hia (by decide)
   have hop : Op.ofNat? s.oper.op = some .nothing := by rw [hoper]; rfl
@@ -125,9 +125,9 @@ theorem nothing_delivers (he : Entry X a i T S C s) (hia : InstrAt X.p a (i0 opN
   have hbody : VM.body X.p X.env s = .ok (s, .back) := by simp only [body, hop, modeOf, hb, hb2]
   exact deliver_none he hbody rfl rfl rfl
 
-theorem beginning_delivers (he : Entry X a i T S C s) (hia : InstrAt X.p a (i0 opBeginning))
+theorem beginning_delivers (he : Entry X a i (T ++ [v]) S C s) (hia : InstrAt X.p a (i0 opBeginning))
     (hf : ∃ w, VM.fetch X.p (a + 1) = .ok w) :
-    Delivers X (a + 1) T S S C (Spec.m X.se (.anchor .beginning) false ⟨i, C⟩) s := by
+    Delivers X (a + 1) T S S C (Spec.m X.se (.anchor .beginning) d ⟨i, C⟩) s := by
   have hoper := bare_oper he hia (by decide)
   have hop : Op.ofNat? s.oper.op = some .beginning := by rw [hoper]; rfl
   have hb : s.oper.back = false := by rw [hoper]
@@ -138,9 +138,9 @@ theorem beginning_delivers (he : Entry X a i T S C s) (hia : InstrAt X.p a (i0 o
     rw [Bool.eq_iff_iff]; first | (simp; done) | (simp; omega)
   simpa [Spec.m] using assert_delivers he hbody hf
 
-theorem start_delivers (hrel : EnvRel TPx sets X.env X.se) (he : Entry X a i T S C s)
+theorem start_delivers (hrel : EnvRel TPx sets X.env X.se) (he : Entry X a i (T ++ [v]) S C s)
     (hia : InstrAt X.p a (i0 opStart)) (hf : ∃ w, VM.fetch X.p (a + 1) = .ok w) :
-    Delivers X (a + 1) T S S C (Spec.m X.se (.anchor .start) false ⟨i, C⟩) s := by
+    Delivers X (a + 1) T S S C (Spec.m X.se (.anchor .start) d ⟨i, C⟩) s := by
   have hoper := bare_oper he hia (by decide)
   have hop : Op.ofNat? s.oper.op = some .start := by rw [hoper]; rfl
   have hb : s.oper.back = false := by rw [hoper]
@@ -151,9 +151,9 @@ theorem start_delivers (hrel : EnvRel TPx sets X.env X.se) (he : Entry X a i T S
     rw [Bool.eq_iff_iff]; first | (simp; done) | (simp; omega)
   simpa [Spec.m] using assert_delivers he hbody hf
 
-theorem end_delivers (hrel : EnvRel TPx sets X.env X.se) (hi : i ≤ X.se.n) (he : Entry X a i T S C s)
+theorem end_delivers (hrel : EnvRel TPx sets X.env X.se) (hi : i ≤ X.se.n) (he : Entry X a i (T ++ [v]) S C s)
     (hia : InstrAt X.p a (i0 opEnd)) (hf : ∃ w, VM.fetch X.p (a + 1) = .ok w) :
-    Delivers X (a + 1) T S S C (Spec.m X.se (.anchor .end) false ⟨i, C⟩) s := by
+    Delivers X (a + 1) T S S C (Spec.m X.se (.anchor .end) d ⟨i, C⟩) s := by
   have hoper := bare_oper he hia (by decide)
   have hop : Op.ofNat? s.oper.op = some .end_ := by rw [hoper]; rfl
   have hb : s.oper.back = false := by rw [hoper]
@@ -164,9 +164,9 @@ theorem end_delivers (hrel : EnvRel TPx sets X.env X.se) (hi : i ≤ X.se.n) (he
     rw [Bool.eq_iff_iff]; first | (simp; done) | (simp; omega)
   simpa [Spec.m] using assert_delivers he hbody hf
 
-theorem bol_delivers (hrel : EnvRel TPx sets X.env X.se) (hi : i ≤ X.se.n) (he : Entry X a i T S C s)
+theorem bol_delivers (hrel : EnvRel TPx sets X.env X.se) (hi : i ≤ X.se.n) (he : Entry X a i (T ++ [v]) S C s)
     (hia : InstrAt X.p a (i0 opBol)) (hf : ∃ w, VM.fetch X.p (a + 1) = .ok w) :
-    Delivers X (a + 1) T S S C (Spec.m X.se (.anchor .bol) false ⟨i, C⟩) s := by
+    Delivers X (a + 1) T S S C (Spec.m X.se (.anchor .bol) d ⟨i, C⟩) s := by
   have hoper := bare_oper he hia (by decide)
   have hop : Op.ofNat? s.oper.op = some .bol := by rw [hoper]; rfl
   have hb : s.oper.back = false := by rw [hoper]
@@ -182,9 +182,9 @@ theorem bol_delivers (hrel : EnvRel TPx sets X.env X.se) (hi : i ≤ X.se.n) (he
       simp [hpos, e, hch, hc, Except.map]
   simpa [Spec.m] using assert_delivers he hbody hf
 
-theorem eol_delivers (hrel : EnvRel TPx sets X.env X.se) (hi : i ≤ X.se.n) (he : Entry X a i T S C s)
+theorem eol_delivers (hrel : EnvRel TPx sets X.env X.se) (hi : i ≤ X.se.n) (he : Entry X a i (T ++ [v]) S C s)
     (hia : InstrAt X.p a (i0 opEol)) (hf : ∃ w, VM.fetch X.p (a + 1) = .ok w) :
-    Delivers X (a + 1) T S S C (Spec.m X.se (.anchor .eol) false ⟨i, C⟩) s := by
+    Delivers X (a + 1) T S S C (Spec.m X.se (.anchor .eol) d ⟨i, C⟩) s := by
   have hoper := bare_oper he hia (by decide)
   have hop : Op.ofNat? s.oper.op = some .eol := by rw [hoper]; rfl
   have hb : s.oper.back = false := by rw [hoper]
@@ -201,9 +201,9 @@ theorem eol_delivers (hrel : EnvRel TPx sets X.env X.se) (hi : i ≤ X.se.n) (he
       simp [VM.assertion]
   simpa [Spec.m] using assert_delivers he hbody hf
 
-theorem endz_delivers (hrel : EnvRel TPx sets X.env X.se) (hi : i ≤ X.se.n) (he : Entry X a i T S C s)
+theorem endz_delivers (hrel : EnvRel TPx sets X.env X.se) (hi : i ≤ X.se.n) (he : Entry X a i (T ++ [v]) S C s)
     (hia : InstrAt X.p a (i0 opEndZ)) (hf : ∃ w, VM.fetch X.p (a + 1) = .ok w) :
-    Delivers X (a + 1) T S S C (Spec.m X.se (.anchor (if TPx.strict then .end else .endz)) false ⟨i, C⟩) s := by
+    Delivers X (a + 1) T S S C (Spec.m X.se (.anchor (if TPx.strict then .end else .endz)) d ⟨i, C⟩) s := by
   have hoper := bare_oper he hia (by decide)
   have hop : Op.ofNat? s.oper.op = some .endz := by rw [hoper]; rfl
   have hb : s.oper.back = false := by rw [hoper]
@@ -257,9 +257,9 @@ theorem isBoundary_spec (hrel : EnvRel TPx sets X.env X.se) (hi : i ≤ X.se.n) 
       simp [this, hn]
   rw [h1, h2]
 
-theorem boundary_delivers (hrel : EnvRel TPx sets X.env X.se) (hi : i ≤ X.se.n) (he : Entry X a i T S C s)
+theorem boundary_delivers (hrel : EnvRel TPx sets X.env X.se) (hi : i ≤ X.se.n) (he : Entry X a i (T ++ [v]) S C s)
     (hia : InstrAt X.p a (i0 opBoundary)) (hf : ∃ w, VM.fetch X.p (a + 1) = .ok w) :
-    Delivers X (a + 1) T S S C (Spec.m X.se (.anchor .boundary) false ⟨i, C⟩) s := by
+    Delivers X (a + 1) T S S C (Spec.m X.se (.anchor .boundary) d ⟨i, C⟩) s := by
   have hoper := bare_oper he hia (by decide)
   have hop : Op.ofNat? s.oper.op = some .boundary := by rw [hoper]; rfl
   have hb : s.oper.back = false := by rw [hoper]
@@ -269,9 +269,9 @@ theorem boundary_delivers (hrel : EnvRel TPx sets X.env X.se) (hi : i ≤ X.se.n
     simp
   simpa [Spec.m] using assert_delivers he hbody hf
 
-theorem nonboundary_delivers (hrel : EnvRel TPx sets X.env X.se) (hi : i ≤ X.se.n) (he : Entry X a i T S C s)
+theorem nonboundary_delivers (hrel : EnvRel TPx sets X.env X.se) (hi : i ≤ X.se.n) (he : Entry X a i (T ++ [v]) S C s)
     (hia : InstrAt X.p a (i0 opNonboundary)) (hf : ∃ w, VM.fetch X.p (a + 1) = .ok w) :
-    Delivers X (a + 1) T S S C (Spec.m X.se (.anchor .nonboundary) false ⟨i, C⟩) s := by
+    Delivers X (a + 1) T S S C (Spec.m X.se (.anchor .nonboundary) d ⟨i, C⟩) s := by
   have hoper := bare_oper he hia (by decide)
   have hop : Op.ofNat? s.oper.op = some .nonboundary := by rw [hoper]; rfl
   have hb : s.oper.back = false := by rw [hoper]
@@ -284,9 +284,9 @@ theorem nonboundary_delivers (hrel : EnvRel TPx sets X.env X.se) (hi : i ≤ X.s
 
 /-- every node type of the constructor `bare` that the fragment contains -/
 theorem bare_delivers (hrel : EnvRel TPx sets X.env X.se) (hi : i ≤ X.se.n) {t : Nat} {pat : Spec.Pat}
-    (hp : bareToPat TPx t = some pat) (ht : ¬ t = opUpdateBumpalong) (he : Entry X a i T S C s)
+    (hp : bareToPat TPx t = some pat) (ht : ¬ t = opUpdateBumpalong) (he : Entry X a i (T ++ [v]) S C s)
     (hia : InstrAt X.p a (i0 t)) (hf : ∃ w, VM.fetch X.p (a + 1) = .ok w) :
-    Delivers X (a + 1) T S S C (Spec.m X.se pat false ⟨i, C⟩) s := by
+    Delivers X (a + 1) T S S C (Spec.m X.se pat d ⟨i, C⟩) s := by
   unfold bareToPat at hp
   split at hp
   · next h => cases hp; rw [beq_iff_eq.1 h] at hia; simpa [Spec.m] using nothing_delivers he hia
@@ -343,15 +343,49 @@ theorem predOk_set {X : Setup} {TPx : TP} {sets : List (List Nat)} (hrel : EnvRe
 
 section chars
 variable {X : Setup} {TPx : TP} {sets : List (List Nat)} {a i : Nat} {T S : List Int} {C : List (Nat × Nat × Nat)}
-  {s : VMState}
+  {s : VMState} {v : Int}
 
-theorem caseChar_delivers (hrel : EnvRel TPx sets X.env X.se) (hi : i ≤ X.se.n) (he : Entry X a i T S C s)
+theorem caseChar_delivers (hrel : EnvRel TPx sets X.env X.se) (hi : i ≤ X.se.n) (he : Entry X a i (T ++ [v]) S C s)
     {sel : Nat} {x : Int} {P : Spec.Pred} {ins : Instr} (hia : InstrAt X.p a ins) (hx : ins.args[0]? = some x)
-    (hbody : VM.body X.p X.env s = VM.caseChar X.p X.env sel s) (hrtl : s.oper.rtl = false)
+    (hbody : VM.body X.p X.env s = VM.caseChar X.p X.env sel s) {d : Bool} (hrtl : s.oper.rtl = d)
     (hpred : PredOk X sel x P) (hf : ∃ w, VM.fetch X.p (a + 2) = .ok w) :
-    Delivers X (a + 2) T S S C (Spec.m X.se (.chr P) false ⟨i, C⟩) s := by
+    Delivers X (a + 2) T S S C (Spec.m X.se (.chr P) d ⟨i, C⟩) s := by
   obtain ⟨pred, hcp, hpr⟩ := hpred
   have hop := hia.operand he.pc 0 x hx
+  cases d with
+  | true =>
+    by_cases hpos : 0 < i
+    · obtain ⟨c, hc, hch⟩ := charAt_lt hrel (i - 1) (by omega)
+      have e1 : (i : Int) - 1 = ((i - 1 : Nat) : Int) := by omega
+      have hfc : ¬ (VM.forwardchars X.env s < 1) := by
+        simp only [VM.forwardchars, hrtl, if_true, he.tp]; omega
+      have hfn : VM.forwardcharnext X.env true (i : Int) = .ok (c, (i : Int) - 1) := by
+        simp [VM.forwardcharnext, e1, hch, Except.map]
+      have hi0 : ¬ i = 0 := by omega
+      have hm : Spec.m X.se (.chr P) true ⟨i, C⟩ = if P.test X.se c then [⟨i - 1, C⟩] else [] := by
+        simp [Spec.m, Spec.stepChar, hc, hi0]
+      rw [hm, ← hpr c]
+      by_cases hpc : pred c = true
+      · have hb : VM.body X.p X.env s = .ok (VM.textto s ((i : Int) - 1), .advance 1) := by
+          rw [hbody]; unfold VM.caseChar
+          simp only [hfc, if_false, bind, Except.bind, hop, hcp, hrtl, he.tp, hfn, hpc, if_true, pure, Except.pure]
+        rw [if_pos hpc]
+        exact deliver_one (k := 1) he hb rfl rfl rfl rfl (by simp [VM.textto, e1]) hf
+      · have hb : VM.body X.p X.env s = .ok (VM.textto s ((i : Int) - 1), .back) := by
+          rw [hbody]; unfold VM.caseChar
+          simp only [hfc, if_false, bind, Except.bind, hop, hcp, hrtl, he.tp, hfn, hpc, pure, Except.pure]
+          simp
+        rw [if_neg hpc]
+        exact deliver_none he hb rfl rfl rfl
+    · have hi0 : i = 0 := by omega
+      have hfc : VM.forwardchars X.env s < 1 := by
+        simp only [VM.forwardchars, hrtl, if_true, he.tp]; omega
+      have hb : VM.body X.p X.env s = .ok (s, .back) := by
+        rw [hbody]; unfold VM.caseChar; simp only [hfc, if_true]
+      have hm : Spec.m X.se (.chr P) true ⟨i, C⟩ = [] := by simp [Spec.m, Spec.stepChar, hi0]
+      rw [hm]
+      exact deliver_none he hb rfl rfl rfl
+  | false =>
   by_cases hlt : i < X.se.n
   · obtain ⟨c, hc, hch⟩ := charAt_lt hrel i hlt
     have hfc : ¬ (VM.forwardchars X.env s < 1) := by
@@ -390,7 +424,7 @@ end chars
 
 section multi
 variable {X : Setup} {TPx : TP} {sets : List (List Nat)} {a i : Nat} {T S : List Int} {C : List (Nat × Nat × Nat)}
-  {s : VMState}
+  {s : VMState} {v : Int}
 
 theorem take_succ_eq_iff {α : Type} (l1 l2 : List α) (k : Nat) (x y : α) (h1 : l1[k]? = some x) (h2 : l2[k]? = some y) :
     l1.take (k + 1) = l2.take (k + 1) ↔ l1.take k = l2.take k ∧ x = y := by
@@ -437,10 +471,58 @@ theorem cmpBack_spec (hrel : EnvRel TPx sets X.env X.se) (str : List Nat) (i : N
       have : ¬ c = x := fun h => heq h.symm
       simp [this]
 
-theorem multi_delivers (hrel : EnvRel TPx sets X.env X.se) (hi : i ≤ X.se.n) (he : Entry X a i T S C s)
-    {k : Nat} {str : List Nat} (hia : InstrAt X.p a (i1 (opMulti ||| bits false false) (k : Int)))
+theorem multi_delivers (hrel : EnvRel TPx sets X.env X.se) (hi : i ≤ X.se.n) (he : Entry X a i (T ++ [v]) S C s)
+    {k : Nat} {str : List Nat} {d : Bool} (hia : InstrAt X.p a (i1 (opMulti ||| bits d false) (k : Int)))
     (hstr : X.p.strings[k]? = some str) (hf : ∃ w, VM.fetch X.p (a + 2) = .ok w) :
-    Delivers X (a + 2) T S S C (Spec.m X.se (nestSeq (str.map (fun r => .chr (.one r false)))) false ⟨i, C⟩) s := by
+    Delivers X (a + 2) T S S C (Spec.m X.se (nestSeq (str.map (fun r => .chr (.one r false)))) d ⟨i, C⟩) s := by
+  cases d with
+  | true =>
+    have hoper : s.oper = ⟨opMulti, true, false, false, false⟩ := by
+      rw [he.oper hia]; exact (decode_bits opMulti (by decide) true false).2
+    have hop : Op.ofNat? s.oper.op = some .multi := by rw [hoper]; rfl
+    have hb : s.oper.back = false := by rw [hoper]
+    have hb2 : s.oper.back2 = false := by rw [hoper]
+    have hrtl : s.oper.rtl = true := by rw [hoper]
+    have hci : s.oper.ci = false := by rw [hoper]
+    have hk0 : (0 : Int) ≤ (k : Int) := by omega
+    rw [m_multi_rtl]
+    by_cases hlen : str.length ≤ i
+    · have hfc : ¬ (VM.forwardchars X.env s < (str.length : Int)) := by
+        simp only [VM.forwardchars, hrtl, if_true, he.tp]; omega
+      have hcmp := cmpBack_spec hrel str (i - str.length) str.length (Nat.le_refl _) (by omega)
+      have epos : ((i - str.length + str.length : Nat) : Int) = (i : Int) := by omega
+      rw [List.take_length, epos] at hcmp
+      have hrm : VM.runematch X.env s str =
+          .ok (if (X.se.text.drop (i - str.length)).take str.length = str then some ((i : Int) - (str.length : Int)) else none) := by
+        unfold VM.runematch
+        simp only [hfc, if_false, hrtl, if_true, hci, he.tp]
+        rw [hcmp]
+        by_cases heq : (X.se.text.drop (i - str.length)).take str.length = str
+        · simp [heq]
+        · simp [heq]
+      by_cases heq : (X.se.text.drop (i - str.length)).take str.length = str
+      · rw [if_pos heq] at hrm
+        rw [if_pos ⟨hlen, heq⟩]
+        have hbody : VM.body X.p X.env s = .ok (VM.textto s ((i : Int) - (str.length : Int)), .advance 1) := by
+          simp only [body, hop, modeOf, hb, hb2, caseMulti, bind, Except.bind, hia.operand he.pc 0 (k : Int) rfl, hk0,
+            if_true, Int.toNat_natCast, hstr, hrm, pure, Except.pure]
+        exact deliver_one (k := 1) he hbody rfl rfl rfl rfl (by simp [VM.textto]; omega) hf
+      · rw [if_neg heq] at hrm
+        rw [if_neg (fun h => heq h.2)]
+        have hbody : VM.body X.p X.env s = .ok (s, .back) := by
+          simp only [body, hop, modeOf, hb, hb2, caseMulti, bind, Except.bind, hia.operand he.pc 0 (k : Int) rfl, hk0,
+            if_true, Int.toNat_natCast, hstr, hrm, pure, Except.pure]
+        exact deliver_none he hbody rfl rfl rfl
+    · have hfc : VM.forwardchars X.env s < (str.length : Int) := by
+        simp only [VM.forwardchars, hrtl, if_true, he.tp]; omega
+      have hrm : VM.runematch X.env s str = .ok none := by
+        unfold VM.runematch; simp only [hfc, if_true]
+      rw [if_neg (fun h => hlen h.1)]
+      have hbody : VM.body X.p X.env s = .ok (s, .back) := by
+        simp only [body, hop, modeOf, hb, hb2, caseMulti, bind, Except.bind, hia.operand he.pc 0 (k : Int) rfl, hk0,
+          if_true, Int.toNat_natCast, hstr, hrm, pure, Except.pure]
+      exact deliver_none he hbody rfl rfl rfl
+  | false =>
   have hoper : s.oper = ⟨opMulti, false, false, false, false⟩ := by
     rw [he.oper hia]; exact (decode_bits opMulti (by decide) false false).2
   have hop : Op.ofNat? s.oper.op = some .multi := by rw [hoper]; rfl
@@ -508,6 +590,15 @@ theorem goto_leads (he : Entry X a i T S C s) {t : Nat} (hia : InstrAt X.p a (i1
   have hbody : VM.body X.p X.env s = .ok (s, .goto (t : Int)) := by
     simp only [body, hop, modeOf, hb, hb2, caseGoto, hia.operand he.pc 0 (t : Int) rfl, Except.map]
   exact Leads.of_step (step_goto hbody hw) (Leads.here ⟨rfl, hw, he.tp, he.tr, he.st, he.cap⟩)
+
+/-- a fragment followed by `Goto fin` -/
+theorem Delivers.goto {X : Setup} {mid fin : Nat} {T S S' : List Int} {C0 : List (Nat × Nat × Nat)} {rs : List Spec.St}
+    {s : VMState} (h : Delivers X mid T S S' C0 rs s) (hgo : InstrAt X.p mid (i1 opGoto (fin : Int)))
+    (hf : ∃ w, VM.fetch X.p fin = .ok w) : Delivers X fin T S S' C0 rs s := by
+  have := Delivers.bind (X := X) (b := fin) (S' := S') (g := fun r => [r]) rs s h ?_
+  · rwa [flatMap_singleton_id] at this
+  · intro r _ F s' v' _ he'
+    exact Delivers.single (v := v') (goto_leads he' hgo hf) rfl
 
 theorem lazybranch_leads (he : Entry X a i T S C s) {t : Int} (hia : InstrAt X.p a (i1 opLazybranch t))
     (hf : ∃ w, VM.fetch X.p (a + 2) = .ok w) :
@@ -636,6 +727,28 @@ theorem stop_step (he : Entry X a i T S C s) (hia : InstrAt X.p a (i0 opStop)) :
   have hb2 : s.oper.back2 = false := by rw [hoper]
   have hbody : VM.body X.p X.env s = .ok (s, .halt) := by simp only [body, hop, modeOf, hb, hb2]
   rw [step_of_body_ok X.p X.env hbody]; rfl
+
+/-- `UpdateBumpalong`: the bottom slot of the backtracking stack is raised to the text position; one success, nothing
+    else changes (what `Delivers` says "up to the bottom slot") -/
+theorem updatebumpalong_delivers {v : Int} (he : Entry X a i (T ++ [v]) S C s) (hia : InstrAt X.p a (i0 opUpdateBumpalong))
+    (hf : ∃ w, VM.fetch X.p (a + 1) = .ok w) : Delivers X (a + 1) T S S C [⟨i, C⟩] s := by
+  obtain ⟨w, hw⟩ := hf
+  have hoper : s.oper = ⟨opUpdateBumpalong, false, false, false, false⟩ := by
+    rw [he.oper hia]; exact decode_plain opUpdateBumpalong (by decide)
+  have hop : Op.ofNat? s.oper.op = some .updatebumpalong := by rw [hoper]; rfl
+  have hb : s.oper.back = false := by rw [hoper]
+  have hb2 : s.oper.back2 = false := by rw [hoper]
+  by_cases hlt : v < (i : Int)
+  · have hbody : VM.body X.p X.env s = .ok ({ s with track := T ++ [(i : Int)] }, .advance 0) := by
+      simp only [body, hop, modeOf, hb, hb2, caseUpdateBumpalong, he.tr, he.tp]
+      simp [hlt]
+    refine Delivers.single (v := (i : Int)) (Leads.of_step (step_adv hbody (by simp only [he.pc]; exact hw)) (Leads.here ?_)) rfl
+    exact ⟨by simp [he.pc], hw, he.tp, rfl, he.st, he.cap⟩
+  · have hbody : VM.body X.p X.env s = .ok (s, .advance 0) := by
+      simp only [body, hop, modeOf, hb, hb2, caseUpdateBumpalong, he.tr, he.tp]
+      simp [hlt]
+    refine Delivers.single (v := v) (Leads.of_step (step_adv hbody (by simp only [he.pc]; exact hw)) (Leads.here ?_)) rfl
+    exact ⟨by simp [he.pc], hw, he.tp, he.tr, he.st, he.cap⟩
 
 end control
 
